@@ -152,8 +152,12 @@ NINext == \/ \E i \in Others : \E e \in OtherEvents(i) : StepOther(e)
           \/ MutantShare
 
 \* one complete world-1 behaviour per explored transition (sampled)
+\* transitions in which another client's reply arrives while the observed client awaits an answer itself are where the
+\* per-service shared state (reference counts, "is anybody waiting") is exercised: they are sampled ten times as densely
+SharedSvcStep == LET e == hist'[Len(hist')].e IN
+                 e.e = "X" /\ e.oid # A /\ A \in DOMAIN r1 /\ r1[A].ref # {}
 Emit == \/ EmitMod = 0
-        \/ (EmitMod > 1 /\ RandomElement(1..EmitMod) # 1)
+        \/ (EmitMod > 1 /\ RandomElement(1..(IF SharedSvcStep THEN 1 + EmitMod \div 10 ELSE EmitMod)) # 1)
         \/ PrintT("@@E" \o ToJson(hist'))
 
 NISpec == NIInit /\ [][NINext]_nivars
